@@ -136,7 +136,7 @@ pub fn shapes() -> Vec<(&'static str, String)> {
     }
     // data of a case clause are compared with eqv?: a freshly made list or vector is never eqv? to
     // a datum of the same shape, the empty list always is
-    for (k, d) in [("(list 1 2)", "(1 2)"), ("(vector 1)", "#(1)"), ("(list)", "()"), ("(cdr (list 1))", "()"), ("(list 1)", "(1)"), ("1", "(1)"), ("'(1 2)", "1")] {
+    for (k, d) in [("(list 1 2)", "(1 2)"), ("(vector 1)", "#(1)"), ("(list)", "()"), ("(cdr (list 1))", "()"), ("(list 1)", "(1)"), ("1", "(1)"), ("'(1 2)", "1"), ("(* 1.0 2)", "2"), ("2", "2.0"), ("(/ 4 2)", "2.0"), ("2.5", "5/2")] {
         out.push(("case", format!("(case {} (({}) E1) (else E2))", k, d)));
         out.push(("case", format!("(case {} ((0 {}) E1))", k, d)));
         out.push(("case", format!("(case {} (({} 5) => F1) (else => F2))", k, d)));
